@@ -90,6 +90,49 @@ def run(ck: vlib.Check):
                              {"kind": "registry", "optimised": True, "module": m, "registry": reg, "missing": missing,
                               "extra": sorted(set(got["keys"]) - set(expected[reg]))}, True)
                 break
+    # other valid ways of deploying the same package: a directory whose name holds glob metacharacters, and a
+    # sourceless (.pyc only) install; a sample of entry modules, the same requirement
+    import shutil
+    import tempfile
+    with tempfile.TemporaryDirectory(dir=str(vlib.BUILD)) as td:
+        variants = {}
+        brack = Path(td) / "site-packages[py3]"
+        shutil.copytree(vlib.SRC / "richchk", brack / "richchk", ignore=shutil.ignore_patterns("__pycache__", "logs"))
+        variants["a directory with glob characters"] = brack
+        bare = Path(td) / "sourceless"
+        shutil.copytree(vlib.SRC / "richchk", bare / "richchk", ignore=shutil.ignore_patterns("__pycache__", "logs"))
+        subprocess.run(["/venv/bin/python", "-m", "compileall", "-b", "-q", str(bare / "richchk")], stdout=subprocess.DEVNULL,
+                       stderr=subprocess.DEVNULL)
+        for pyf in list((bare / "richchk").rglob("*.py")):
+            pyf.unlink()
+        variants["a sourceless (.pyc only) install"] = bare
+        sample = [m for i, m in enumerate(mods) if i % 9 == 0 or "factory" in m or m.endswith(("chk_io", "richchk_io"))]
+        for what, root in variants.items():
+            def one_v(m, root=root):
+                p = subprocess.run(["/venv/bin/python", WORKER, m, str(root)], stdout=subprocess.PIPE, stderr=subprocess.DEVNULL,
+                                   text=True, timeout=300, env={"PATH": "/usr/bin:/bin", "PYTHONHASHSEED": "0"})
+                try:
+                    return json.loads(p.stdout.strip().splitlines()[-1])
+                except Exception:
+                    return {"raised": "worker-failed", "msg": p.stdout[-200:]}
+            with ThreadPoolExecutor(max_workers=vlib.NCPU) as ex:
+                res_v = list(ex.map(one_v, sample))
+            for m, rv in zip(sample, res_v):
+                ck.evaluations += 1
+                if "raised" in rv:
+                    ck.violation(f"deployed as {what}: importing {m} first raises {rv['raised']}: {rv.get('msg')}",
+                                 {"kind": "deployment", "variant": what, "module": m, "result": rv}, True)
+                    break
+                bad = None
+                for reg in range(4):
+                    got = rv["regs"].get(str(reg))
+                    if got is not None and got["keys"] != sorted(expected[reg]):
+                        bad = (reg, sorted(set(expected[reg]) - set(got["keys"])))
+                        break
+                if bad:
+                    ck.violation(f"deployed as {what}: importing {m} first leaves registry {bad[0]} incomplete: missing {bad[1][:6]}",
+                                 {"kind": "deployment", "variant": what, "module": m, "registry": bad[0], "missing": bad[1]}, True)
+                    break
     ck.extra["entry_points_after_which_each_registry_is_loaded"] = n_loaded
     ck.extra["modules"] = len(mods)
     if drv_ok:
